@@ -322,3 +322,31 @@ Theorem C04_identity_default_end : forall (core invert : bool) (G H : hostg),
     regen_folded T' (if invert then H else G) (if invert then G else H) = true.
 Proof. exact default_identity_end. Qed.
 Print Assumptions C04_identity_default_end.
+
+(** * strategies comp / bt: the clause is REFUTED (known findings hand:intra-spectator:centre:fwd:{comp,bt}:not-separating)
+
+    The property text quantifies over the strategies comp / bt / all.  C06 fixes what comp returns: only the matches that
+    put different components of the pattern into different components of the substrate (and nothing in the strict_cc_count
+    guard region); bt returns comp's answer when it is not empty.  So whenever the reaction is INTRAMOLECULAR for a pattern
+    with several components (a centre whose changed bonds are not connected on the reactant side) and a spectator molecule
+    offers the missing group, the identity -- a valid match -- is not among the raw matches of comp or bt, and the own template
+    does not regenerate the reaction: witness 5-bromopentan-1-ol + methanol -> tetrahydropyran + HBr + methanol, centre
+    template, forwards, with C06's verified enumerator as VF2 (so the VF2 contract holds).  The exhaustive strategy regenerates
+    it (C04_in_results_engine_partial).  Not repaired: the behaviour is C06's specification of the two strategies; the
+    oracle emits the known-finding key only when the identity is a valid match that does not separate the pattern components,
+    and then the raw matches are also enumerated by the model. *)
+Theorem C04_comp_bt_refuted : exists (G H : hostg) (rule : triple),
+  pair_wfb G H = true /\ no_explicit_H G = true /\ consistent_H (its_construct G H) = true /\
+  centre_carries (its_construct G H) = true /\ rule_of true false G H = Some rule /\
+  let host := substrate false G H in
+  let pat := pattern_of (snd (fst rule)) in
+  let enum := monos_on (tr_host host) (tr_pat pat) in
+  let regenerates (s : sarg) :=
+    match read_its (api_engine enum) no_rematch (own_opts false false s None false) host rule fresh with
+    | (Some gs, _) => existsb (fun T => regen_folded T G H) gs
+    | _ => false
+    end in
+  match_okb host pat (id_map (node_ids pat)) = true /\
+  regenerates (SMember 0%N) = true /\ regenerates (SStr [99; 111; 109; 112]%N) = false /\ regenerates (SStr [98; 116]%N) = false.
+Proof. exact comp_bt_refuted. Qed.
+Print Assumptions C04_comp_bt_refuted.
